@@ -543,7 +543,10 @@ def build_parser(repo, external=(), canary=None, with_witness=True, boost=False)
     b.add(read("spec/parser_spec.rs"))
 
     sp = Woven(parser_rs, "fn", "span", log)
-    sp.contract(sc["span.contract"], ret="r")
+    m = re.match(r"^fn span\((\w+): SourceRange, (\w+): SourceRange\)", sp.lines[0])
+    if not m:
+        raise LostAnchor("src/parser.rs fn span: signature not as expected")
+    sp.contract(sc["span.contract"].replace("$A", m.group(1)).replace("$B", m.group(2)), ret="r")
     ra = Woven(parser_rs, "fn", "reassociate_applications", log)
     strip_clippy(ra)
     weave_reassoc(ra, sc, "apps")
